@@ -27,7 +27,7 @@ def task_tla(t):
         ("manual", tla(t["manual"])), ("preok", tla(all(p["ok"] for p in t["pre"]))),
         ("xok", tla(all(t["xsat"].values()) if t["xsat"] else True)),
         ("complete", tla(t["complete"])), ("fwait", tla(t["fwait"])),
-        ("etry", str(t["etry"])), ("stry", str(t["stry"])),
+        ("etry", str(t["etry"])), ("stry", str(t["stry"])), ("xneed", tla(set(t.get("xneed") or []))),
     ]
     return "[" + ", ".join(f"{k} |-> {v}" for k, v in f) + "]"
 
@@ -126,6 +126,10 @@ def event_tla(ev):
         f += [("store", _spmap(ev["store"])), ("client", _spmap(ev["client"])),
               ("client_equal", tla(ev["client_equal"])), ("checksum_ok", tla(ev["checksum_ok"])),
               ("diffclass", tla(ev.get("client_diff_class", "none")))]
+    elif e == "xt_call":
+        f += [("sig", tla(ev["sig"])), ("label", tla(ev["label"])), ("intvl", str(ev["intvl"])), ("clock", str(ev["clock"]))]
+    elif e == "xt_ret":
+        f += [("sig", tla(ev["sig"])), ("ok", tla(ev["ok"]))]
     elif e == "cmd_done":
         f += [("name", tla(ev["name"]))] + _sync_fields(ev["sync"], None)
     elif e in ("set_stop",):
@@ -148,7 +152,7 @@ def event_tla(ev):
         return None
     return "[" + ", ".join(f"{k} |-> {v}" for k, v in f) + "]"
 
-KEEP = {"quiescent", "ds_update", "merge", "flow", "cmd", "cmd_done", "env_job", "sched_stop", "restored", "crash", "env_launch", "spawn", "remove", "state", "prepare", "msg", "q_release", "rh_compute", "loop_end", "boot", "set_stop",
+KEEP = {"xt_call", "xt_ret", "quiescent", "ds_update", "merge", "flow", "cmd", "cmd_done", "env_job", "sched_stop", "restored", "crash", "env_launch", "spawn", "remove", "state", "prepare", "msg", "q_release", "rh_compute", "loop_end", "boot", "set_stop",
         "stall", "end"}
 
 def run_tla(w_tla: str, events: list, opt: dict):
